@@ -19,6 +19,7 @@ from dataclasses import dataclass, field
 from .exc import ExcLattice
 
 NORMAL_KINDS = ('n', 'T', 'F', 'iter', 'exhaust', 'ret', 'brk', 'cont', 'fall')
+EXC_KINDS = ('exc', 'xprop')
 
 
 @dataclass
@@ -45,12 +46,13 @@ class Node:
 class Edge:
     src: int
     dst: int
-    kind: str  # n T F iter exhaust ret brk cont fall exc
-    data: object = None  # raise-set for 'exc'
+    kind: str  # n T F iter exhaust ret brk cont fall exc xprop
+    data: object = None  # raise-set for 'exc' (raised by src: its effects did not happen) and
+    #                      'xprop' (a pending exception goes on after a cleanup node completed)
 
     @property
     def is_exc(self):
-        return self.kind == 'exc'
+        return self.kind in ('exc', 'xprop')
 
 
 class _Loop:
@@ -221,19 +223,21 @@ class CFG:
                 for hnode, names in f.handlers:
                     enters, remaining = self.lat.split(R, names)
                     if enters:
-                        for n, _k, _d in preds:
-                            self._edge(n, hnode, 'exc', enters)
+                        for n, k, _d in preds:
+                            self._edge(n, hnode, 'xprop' if k == 'xprop' else 'exc', enters)
                     R = remaining
                     if not R:
                         break
             elif isinstance(f, _Cleanup):
                 exits = self._enter_cleanup(f, ('exc', R), preds, frames[:i])
-                self._route_exc([(n, 'exc', R) for n, _k, _d in exits], R, frames[:i])
+                # the pending exception continues after the cleanup completed normally:
+                # kind 'xprop' (the source node's effects DID happen), not 'exc'
+                self._route_exc([(n, 'xprop', R) for n, _k, _d in exits], R, frames[:i])
                 return
             i -= 1
         if R:
-            for n, _k, _d in preds:
-                self._edge(n, self.exit_raise, 'exc', R)
+            for n, k, _d in preds:
+                self._edge(n, self.exit_raise, 'xprop' if k == 'xprop' else 'exc', R)
 
     def _enter_cleanup(self, f: _Cleanup, key, preds, outer):
         if key in f.copies:
@@ -386,7 +390,7 @@ class CFG:
         body_out = self._stmts(st.body, preds, base + [tf], pending)
         outs = self._stmts(st.orelse, body_out, base, pending) if st.orelse else body_out
         for hn, h in hnodes:
-            caught = frozenset().union(*[e.data for e in self.pred[hn] if e.kind == 'exc']) if self.pred[hn] else frozenset()
+            caught = frozenset().union(*[e.data for e in self.pred[hn] if e.kind in ('exc', 'xprop')]) if self.pred[hn] else frozenset()
             self.nodes[hn].extra['caught'] = caught
             if not self.pred[hn]:
                 continue  # unreachable under this fallibility table
@@ -419,7 +423,7 @@ class CFG:
         return self.nodes[nid]
 
     def normal_succ(self, nid):
-        return [e for e in self.succ[nid] if e.kind != 'exc']
+        return [e for e in self.succ[nid] if e.kind not in EXC_KINDS]
 
     def find(self, pred):
         return [n for n in self.nodes if pred(n)]
